@@ -1,5 +1,6 @@
 import WV.Proofs.C13
 import WV.Proofs.C13_Open
+import WV.Proofs.C13_Honest
 
 /-!
 C13 property theorems — subchannels open once, close once, honour the subprotocol contract.
@@ -573,31 +574,120 @@ theorem data_before_close_unrestricted_false : ¬ data_before_close_unrestricted
         some (.data 0 [7]) := by decide
   exact hall j hj hd
 
-/-- **data_before_close**, the statement for the environment of this property (the peer is honest
-    and L4 delivers in order: `WOp.honest`): DATA that A put on the wire for a subchannel before
-    its (first) CLOSE reaches `dataReceived` of B's protocol for that subchannel before that
-    protocol's `connectionLost`.
+/-- **The link invariant of honest worlds.**  Two sides built by `choose_role` (no declared
+    `expected_subprotocols`), any honest schedule (`HonestRun`: application calls and `select()`
+    turns on both sides; the peer's next new record arriving, directly or parked with a KCM;
+    records already processed arriving again after a loss, directly or parked; connection losses):
+    `HInv` holds throughout — per direction, every live SubChannel object has seen exactly what
+    the peer sent on its id, as far as processed (`Rcv.m`), nothing is sent on an id after its
+    CLOSE (`Snd.ndac`), seqnums are 0,1,2,… (`Snd.seq`), ids are never shared or reused
+    (`Rcv.uniq`, `Snd.org`), … -/
+theorem honest_world_invariant {sa sb : String} {w : World} (hw : World.init sa sb none none = some w)
+    (ops : List WOp) (hon : HonestRun w ops) : HInv (wrun w ops) :=
+  honest_run ops w (HInv_init hw) hon
 
-    Proved: (1) the FIFO pipe is how `wstep` is defined; (2) `data_before_close_partial` — after
-    its CLOSE the sender puts no further DATA of that protocol on the wire; (3) the receiver, per
-    record and per SubChannel object: `data_record_delivered` (at once, to exactly that protocol),
-    `data_record_queued` + `listen_connects_all_pending` + `each_pending_gets_its_own_data` (own
-    queue, handed over in arrival order after `connectionMade`, the queued CLOSE last), and
-    `nothing_after_lost`.  NOT proved: the glue between the two logs — that every record A sends
-    for `scid` is routed to *the* SubChannel B has for `scid` (B's object exists and is still
-    registered when the record arrives).  That needs a two-sided causality invariant (A only
-    sends on ids whose OPEN precedes on the wire or that B allocated earlier; ids are never
-    reused) which is not formalised; the harness oracle `data-before-close` checks the statement
-    itself on every honest run of the real code. -/
-def data_before_close_statement : Prop :=
-  ∀ (sa sb : String) (ea eb : Option (List String)) (w : World), World.init sa sb ea eb = some w →
-  ∀ (ops : List WOp), (∀ o ∈ ops, WOp.honest o = true) →
-  ∀ (pb : Nat) (d : Bytes) (pre mid post : List Eff) (q1 q2 scid uid : Nat) (c : SC) (k : PKind),
-    (wrun w ops).a.log = pre ++ .txData q1 scid d :: mid ++ .txClose q2 scid :: post →
-    (∀ q, Eff.txClose q scid ∉ pre) →
-    (wrun w ops).b.subs[uid]? = some c → c.scid = scid → c.proto = some (pb, k) →
-    ∀ i : Nat, (wrun w ops).b.log[i]? = some (.lost pb) →
-      ∃ j : Nat, j < i ∧ (wrun w ops).b.log[j]? = some (.data pb d)
+/-- **data_before_close** (two-sided, run level).  In an honest world, whatever the schedule:
+    every DATA side A ever put on subchannel `scid` has been handed to `dataReceived` of B's
+    protocol for that subchannel *before* that protocol gets its close signal (`connectionLost`,
+    or `readConnectionLost` for a half-closeable protocol).  Since after its CLOSE A sends nothing
+    more on the id (`Snd.ndac`, `write_after_close_errors`), this is: everything written before the
+    local close is delivered before the peer sees the connection lost.
+
+    `_partial`: two schedule classes are not covered.  (1) Worlds where a side declared
+    `expected_subprotocols` (refused OPENs leave unreachable SubChannel objects; the invariant is
+    proved for `none`/`none` only).  (2) A connection loss while records are parked but not yet
+    drained by `select()` (`Honest.lostA/lostB` require nothing unprocessed): the world model counts
+    a parked record as delivered and has no way to deliver it again, so that schedule cannot be
+    expressed honestly; the harness never produces it either (its `link` step is atomic). -/
+theorem data_before_close_honest_partial {sa sb : String} {w : World} (hw : World.init sa sb none none = some w)
+    (ops : List WOp) (hon : HonestRun w ops)
+    {q scid : Nat} {d : Bytes} (hd : Eff.txData q scid d ∈ (wrun w ops).a.log)
+    {uid : Nat} {c : SC} {pb : Nat} {k : PKind} (hc : (wrun w ops).b.subs[uid]? = some c) (hs : c.scid = scid)
+    (hp : c.proto = some (pb, k)) {i : Nat}
+    (hi : (wrun w ops).b.log[i]? = some (.lost pb) ∨ (wrun w ops).b.log[i]? = some (.readLost pb)) :
+    ∃ j, j < i ∧ (wrun w ops).b.log[j]? = some (.data pb d) := by
+  have h := honest_world_invariant hw ops hon
+  rcases hi with hi | hi
+  · exact dbc_core h.sndA h.rcvB hd hc hs hp hi (Or.inl rfl)
+  · exact dbc_core h.sndA h.rcvB hd hc hs hp hi (Or.inr rfl)
+
+/-- the same in the other direction (B writes, A reads) -/
+theorem data_before_close_honest_partial_rev {sa sb : String} {w : World} (hw : World.init sa sb none none = some w)
+    (ops : List WOp) (hon : HonestRun w ops)
+    {q scid : Nat} {d : Bytes} (hd : Eff.txData q scid d ∈ (wrun w ops).b.log)
+    {uid : Nat} {c : SC} {pa : Nat} {k : PKind} (hc : (wrun w ops).a.subs[uid]? = some c) (hs : c.scid = scid)
+    (hp : c.proto = some (pa, k)) {i : Nat}
+    (hi : (wrun w ops).a.log[i]? = some (.lost pa) ∨ (wrun w ops).a.log[i]? = some (.readLost pa)) :
+    ∃ j, j < i ∧ (wrun w ops).a.log[j]? = some (.data pa d) := by
+  have h := honest_world_invariant hw ops hon
+  rcases hi with hi | hi
+  · exact dbc_core h.sndB h.rcvA hd hc hs hp hi (Or.inl rfl)
+  · exact dbc_core h.sndB h.rcvA hd hc hs hp hi (Or.inr rfl)
+
+/-- the protocol reads exactly the peer's stream: in an honest world the `dataReceived`/close
+    callbacks of B's protocol for `scid` are, in order, the DATA/CLOSE records A sent on `scid`, as
+    far as B has processed A's records — nothing dropped, duplicated, re-ordered or mixed up
+    between subchannels, across losses, re-sends and parked bursts -/
+theorem reads_are_what_was_sent {sa sb : String} {w : World} (hw : World.init sa sb none none = some w)
+    (ops : List WOp) (hon : HonestRun w ops) {uid : Nat} {c : SC} {pb : Nat} {k : PKind}
+    (hc : (wrun w ops).b.subs[uid]? = some c) (hp : c.proto = some (pb, k)) :
+    rdItems pb (wrun w ops).b.log = sentTo c.scid (proc (wrun w ops).b) (wrun w ops).a.log := by
+  have h := honest_world_invariant hw ops hon
+  have := h.rcvB.m uid c hc (Or.inl (by rw [hp]; simp))
+  unfold seen at this
+  simpa [hp] using this
+
+/-- **connectionLost exactly once per side** (honest worlds): a connected SubChannel whose reader
+    is closed has had its close signal — and (`world_connectionLost_once`) never twice -/
+theorem closed_subchannel_was_told {sa sb : String} {w : World} (hw : World.init sa sb none none = some w)
+    (ops : List WOp) (hon : HonestRun w ops) {uid : Nat} {c : SC} {pb : Nat} {k : PKind}
+    (hc : (wrun w ops).b.subs[uid]? = some c) (hp : c.proto = some (pb, k)) (hst : c.st = .closed ∨ c.st = .read_closed) :
+    Eff.lost pb ∈ (wrun w ops).b.log ∨ Eff.readLost pb ∈ (wrun w ops).b.log := by
+  have h := honest_world_invariant hw ops hon
+  have hcl := h.rcvB.clsd uid c pb k hc hp hst
+  obtain ⟨e, he, hr⟩ := List.mem_filterMap.mp hcl
+  cases e <;> simp [rdItem] at hr
+  case lost q => subst hr; exact Or.inl he
+  case readLost q => subst hr; exact Or.inr he
+
+/-- connectionLost at most once / nothing after it, on either side of any world run (honest or
+    not): the one-sided theorems apply to both sides of a world -/
+theorem world_connectionLost_once {sa sb : String} {ea eb : Option (List String)} {w : World}
+    (hw : World.init sa sb ea eb = some w) (ops : List WOp) (p : Nat) :
+    (wrun w ops).a.log.count (.lost p) ≤ 1 ∧ (wrun w ops).b.log.count (.lost p) ≤ 1 := by
+  unfold World.init at hw
+  cases ha : chooseRole sa sb with
+  | none => simp [ha] at hw
+  | some ra =>
+    cases hb : chooseRole sb sa with
+    | none => simp [ha, hb] at hw
+    | some rb =>
+      obtain ⟨la, fa⟩ := ra
+      obtain ⟨lb, fb⟩ := rb
+      simp [ha, hb] at hw
+      subst hw
+      obtain ⟨oa, hoa⟩ := wrun_side_a ops { a := Side.init la fa ea, b := Side.init lb fb eb, dAB := 0, dBA := 0 }
+      obtain ⟨ob, hob⟩ := wrun_side_b ops { a := Side.init la fa ea, b := Side.init lb fb eb, dAB := 0, dBA := 0 }
+      rw [hoa, hob]
+      exact ⟨connectionLost_once la fa ea oa p, connectionLost_once lb fb eb ob p⟩
+
+theorem world_nothing_after_lost {sa sb : String} {ea eb : Option (List String)} {w : World}
+    (hw : World.init sa sb ea eb = some w) (ops : List WOp) (p : Nat) (pre post : List Eff)
+    (h : (wrun w ops).b.log = pre ++ .lost p :: post) : ∀ e ∈ post, isCb p e = false := by
+  unfold World.init at hw
+  cases ha : chooseRole sa sb with
+  | none => simp [ha] at hw
+  | some ra =>
+    cases hb : chooseRole sb sa with
+    | none => simp [ha, hb] at hw
+    | some rb =>
+      obtain ⟨la, fa⟩ := ra
+      obtain ⟨lb, fb⟩ := rb
+      simp [ha, hb] at hw
+      subst hw
+      obtain ⟨ob, hob⟩ := wrun_side_b ops { a := Side.init la fa ea, b := Side.init lb fb eb, dAB := 0, dBA := 0 }
+      rw [hob] at h
+      exact nothing_after_lost lb fb eb ob p pre post h
 
 /-- sender half, two-sided world: once A's protocol `pid` closed successfully, whatever both sides
     and the network do afterwards, a later write on it raises and adds nothing to A's wire — so on
@@ -708,6 +798,24 @@ example :
     s.highestAcked = some 2 ∧
     (step (run (step s .lost).1 [.park (.opn 0 1 "a"), .park (.data 1 1 [7]), .park (.close 2 1)]) .select).1.log = s.log := by
   decide
+
+/-- an honest schedule with a parked burst, a connection loss and a re-sent record: the hypotheses
+    of `data_before_close_honest_partial` are met (B's protocol 0 for subchannel 1 reads [7], then
+    gets connectionLost), and A really sent `txData 1 1 [7]` -/
+def exHonestOps : List WOp :=
+  [.onB (.listen "a" .full), .onA (.connect "a" .full), .onA (.write 0 [7]), .onA (.lose 0),
+   .parkAB, .parkAB, .parkAB, .onB .select, .onB .lost, .onA .lost, .onB (Rx.toOp (.data 1 1 [7])), .deliverBA]
+
+def exHonestW : World := { a := Side.init true 1 none, b := Side.init false 2 none, dAB := 0, dBA := 0 }
+
+example : HonestRun exHonestW exHonestOps := by
+  refine ⟨.apiB rfl, .apiA rfl, .apiA rfl, .apiA rfl, .parkAB, .parkAB, .parkAB, .apiB rfl, .lostB ?_, .lostA ?_,
+    .resendAB ?_ ?_, .deliverBA ?_, trivial⟩ <;> decide
+
+example : (wrun exHonestW exHonestOps).b.log =
+    [.build 0 "a", .made 0, .data 0 [7], .txClose 0 1, .lost 0, .ack 1] ∧
+    Eff.txData 1 1 [7] ∈ (wrun exHonestW exHonestOps).a.log ∧
+    (wrun exHonestW exHonestOps).a.log.count (.lost 0) = 1 := by decide
 
 end Examples
 
